@@ -21,7 +21,9 @@ Fixpoint det (n : nat) (M : nat -> nat -> Q) : Q :=
              fmul (fmul (if Nat.even j then 1%Q else (-1)%Q) (M O j))
                   (det m (fun r c => M (S r) (if Nat.ltb c j then c else S c))))
   end.
-Definition solve (d : nat) (M : nat -> nat -> Q) (rhs : vec) : vec :=
+Definition solve (d : nat) (M0 : nat -> nat -> Q) (rhs : vec) : vec :=
+  let Ml := qtab2 d d M0 in        (* materialise the matrix once *)
+  let M := mat d Ml in
   let D := det d M in
   map (fun i => fdiv (det d (fun r c => if Nat.eqb c i then qnth rhs r else M r c)) D) (seq 0 d).
 
